@@ -93,6 +93,71 @@ def tr(sub):
     return seq(parts)
 
 
+# ---- wire format of a regex for the driver's line protocol (custom @-command patterns):
+# prefix notation, tokens joined by '.'
+AT_KINDS = ["beginning", "beginning_string", "end", "end_string"]
+
+
+def wire(sub):
+    parts = []
+    for op, av in sub:
+        if op is C.LITERAL:
+            parts.append(["C0", "1", "l%d" % av])
+        elif op is C.NOT_LITERAL:
+            parts.append(["C1", "1", "l%d" % av])
+        elif op is C.ANY:
+            parts.append(["C1", "1", "l10"])
+        elif op is C.IN:
+            neg = False
+            items = []
+            for o2, a2 in av:
+                if o2 is C.NEGATE:
+                    neg = True
+                elif o2 is C.LITERAL:
+                    items.append("l%d" % a2)
+                elif o2 is C.RANGE:
+                    items.append("r%d_%d" % a2)
+                elif o2 is C.CATEGORY and str(a2).endswith("CATEGORY_DIGIT"):
+                    items.append("d")
+                elif o2 is C.CATEGORY and str(a2).endswith("CATEGORY_SPACE"):
+                    items.append("s")
+                else:
+                    raise TranslateError("unsupported class item %s %s" % (o2, a2))
+            parts.append(["C%d" % (1 if neg else 0), str(len(items))] + items)
+        elif op in (C.MAX_REPEAT, C.MIN_REPEAT):
+            lo, hi, body = av
+            parts.append(["R%d" % (1 if op is C.MAX_REPEAT else 0), str(lo),
+                          "N" if hi == C.MAXREPEAT else str(hi)] + wire(body))
+        elif op is C.SUBPATTERN:
+            gid, af, df, body = av
+            if af or df:
+                raise TranslateError("inline flags are not supported")
+            parts.append((["G%d" % gid] if gid is not None else []) + wire(body))
+        elif op is C.BRANCH:
+            alts = [wire(a) for a in av[1]]
+            r = alts[-1]
+            for a in reversed(alts[:-1]):
+                r = ["A"] + a + r
+            parts.append(r)
+        elif op is C.AT:
+            parts.append(["B%d" % AT_KINDS.index(str(av).split("_", 1)[1].lower())])
+        else:
+            raise TranslateError("unsupported regex construct %s" % op)
+    if not parts:
+        return ["E"]
+    r = parts[-1]
+    for q in reversed(parts[:-1]):
+        r = ["S"] + q + r
+    return r
+
+
+def wire_pattern(pattern):
+    rx = re.compile(pattern)
+    if rx.flags & ~re.UNICODE:
+        raise TranslateError("regex flags %r are not supported" % rx.flags)
+    return ".".join(wire(sre_parse.parse(rx.pattern, rx.flags)))
+
+
 def translate_regex(rx):
     if rx.flags & ~re.UNICODE:
         raise TranslateError("regex flags %r are not supported" % rx.flags)
